@@ -268,6 +268,10 @@ def edit(res, rng, api, pat, proj, setter, fault_at, scribble, dup_yield, case, 
     res.count("edits_succeeded")
     if r is not pat:
         res.count("observation_setter_did_not_return_self")
+    strangers = [(ln, tr, type(n).__name__) for ln, line in enumerate(pat.data) for tr, n in enumerate(line) if not isinstance(n, api.Note)]
+    if strangers:
+        res.violation(f"C19:non-note-installed:{setter}", f"after a {setter} that reported success, cells {strangers[:4]} hold objects that are not notes", case)
+        return False
     got = [[n.raw_data for n in line] for line in pat.data]
     if got != expected:
         diff = [(ln, tr) for ln in range(lines) for tr in range(tracks) if got[ln][tr] != expected[ln][tr]][:5]
